@@ -47,8 +47,15 @@ def canon_deep(o, depth=0):
         return "class:" + o.__module__ + "." + o.__qualname__
     tname = type(o).__module__ + "." + type(o).__qualname__
     if tname.startswith("scipy.interpolate") and hasattr(o, "x") and hasattr(o, "y"):
-        return "interp1d(%s,%s,%s)" % (canon_deep(np.asarray(o.x)), canon_deep(np.asarray(o.y)),
-                                       canon_deep(getattr(o, "fill_value", None), depth + 1))
+        fv = getattr(o, "fill_value", None)
+        if fv is not None and not isinstance(fv, str):
+            # interp1d keeps what it was given: nan, array(nan) and [nan] mean the same fill value
+            try:
+                fv = np.asarray(fv, dtype=float).ravel().tolist()
+            except (TypeError, ValueError):
+                pass
+        return "interp1d(%s,%s,%s,%s)" % (canon_deep(np.asarray(o.x)), canon_deep(np.asarray(o.y)),
+                                          canon_deep(fv, depth + 1), canon_deep(getattr(o, "bounds_error", None)))
     if isinstance(o, np.poly1d):
         return "poly1d(%s)" % canon_deep(np.asarray(o.coeffs))
     if hasattr(o, "name") and hasattr(o, "value") and type(o).__mro__[1].__name__ in ("Enum", "IntEnum", "StrEnum", "Flag"):
